@@ -462,6 +462,12 @@ class MarkdownNormalizer(Renderer):
                 # within a quote block it would be the secondary prefix, like `> `.
                 result += self._second_prefix.rstrip() + "\n"
 
+        if not element.children:
+            # An item with nothing in it is still an item: write its marker.
+            result += self._prefix.rstrip() + "\n"
+            self._prefix = self._second_prefix
+            return result
+
         result += self.render_children(element)
 
         return result
